@@ -29,10 +29,10 @@ for p in props:
 m = {
     "version": 1,
     "setup_cmd": "bin/vcheck setup",
-    "hooks": {"guard": "--cfg squitterator_verif",
-              "enable": "no hooks are needed: checks build /repo unmodified through a cargo path dependency (public API only)",
+    "hooks": {"guard": "cargo feature `verif` of the squitterator crate (off by default)",
+              "enable": "the harness crate depends on /repo with features = [\"verif\"] (harness/Cargo.toml); the only hook is `pub use decoder::format_simple_display` in src/lib.rs, which lets the harness render a table row at a simulated age (case kind D); the CLI binary used by the checks is built WITHOUT the feature",
               "baseline_off_cmd": "cd /repo && cargo test --workspace --no-fail-fast --offline",
-              "source_commits": [], "add_only": True},
+              "source_commits": ["3e20f91e7702c4e83e5457deb41b93f476072481"], "add_only": True},
     "engines": [{"name": "coq-model", "path": "coq/", "serves_properties": [c["property_id"] for c in checks],
                  "kind_free_text": "Coq 8.16 model + theorems (coq/Model, coq/Spec, coq/Proofs, coq/Properties), tables regenerated from /repo by translate/, model extracted to OCaml and run against the Rust implementation by harness/ on generated inputs; python oracle (bin/pyspec.py) for failing-input search"}],
     "checks": checks,
